@@ -623,6 +623,10 @@ func RunC14(seed int64, tier, out string, start int, res *hx.Result) int {
 				return cv.Envelope(d), d, nil
 			})
 			res.Count("proto/agree/"+class, od.kind, fmt.Sprintf("pagree/%s/%s/%d", class, od.kind, len(fr)/256), false)
+			if od.kind != "ok" || od.term != term {
+				// the PAgree case checks the model against e; what Go decoded instead is compared here
+				r.addCase(hx.App("PTo", hx.App("TEnv", oe.term), od.obs("VEnv")), "proto/agree/"+class+"/decoded")
+			}
 			switch {
 			case int(fr[0])<<8|int(fr[1]) != len(fr)-2:
 				r.fail("protobuf.writeEnvelope", class, "length prefix differs from the payload length", idx, term)
